@@ -111,7 +111,7 @@ def op_strategies(name_pool=None):
         fixed(op="set_dim", da=IDX, dim=IDX, attr="labels", val=st.lists(st.text(alphabet=gen.NAME_ALPHA, max_size=3), max_size=4), how=HOW))
     S["force_ts"] = fixed(op="force_ts", k=st.sampled_from(["file", "block", "group", "array", "tag", "mtag", "source", "section", "prop"]),
                           t=IDX, which=st.sampled_from(["created", "updated"]),
-                          time=st.integers(0, 4102444800), how=HOW)
+                          time=st.one_of(st.sampled_from([0, 0, 1, 86400, 4102444800]), st.integers(0, 4102444800)), how=HOW)
 
     def link_ops(opname):
         alts = []
